@@ -22,10 +22,12 @@ from vf.coqlit import cstr
 
 THEOREMS = [
     "C13_generated_pack_rule_safe", "C13_generated_new", "C13_generated_text_formats", "C13_generated_avro",
-    "C13_generated_class_defines", "C13_parse_print_digits", "C13_iso_roundtrip", "C13_iso_roundtrip_space",
+    "C13_generated_class_defines", "C13_parse_print_digits", "C13_iso_roundtrip", "C13_iso_roundtrip_partial",
+    "C13_iso_roundtrip_refuted", "C13_iso_roundtrip_space",
     "C13_iso_parse_valid", "C13_always_aware", "C13_naive_means_utc", "C13_object_input_keeps_offset",
-    "C13_refuted_if_fold_dropped", "C13_text_input", "C13_epoch_input", "C13_coercion_keeps_instant",
+    "C13_refuted_if_fold_dropped", "C13_text_input", "C13_text_input_partial", "C13_epoch_input", "C13_coercion_keeps_instant",
     "C13_tuple_roundtrip", "C13_tuple_roundtrip_naive", "C13_stream_json_sqlite_keep_offset",
+    "C13_stream_json_sqlite_keep_offset_partial", "C13_stream_json_sqlite_refuted",
     "C13_civil_days_inverse", "C13_micros_roundtrip", "C13_micros_roundtrip_inverse", "C13_avro_keeps_instant",
     "C13_avro_guard_branch", "C13_avro_utc_unchanged", "C13_avro_out_of_range_refused",
     "C13_display_setting_irrelevant",
@@ -182,7 +184,7 @@ FIXED_OFFSETS = [
     0, 3600 * 10 ** 6, -3600 * 10 ** 6, 14 * 3600 * 10 ** 6, -12 * 3600 * 10 ** 6, (5 * 60 + 45) * 60 * 10 ** 6,
     -(3 * 60 + 30) * 60 * 10 ** 6, 10 ** 6, -10 ** 6, 1, -1, 1172 * 10 ** 6, -(4 * 3600 + 56 * 60 + 2) * 10 ** 6,
     DAY_US - 1, -(DAY_US - 1), DAY_US - 60 * 10 ** 6, -(DAY_US - 60 * 10 ** 6), 59 * 10 ** 6 + 999999, 60 * 10 ** 6,
-    3600 * 10 ** 6 + 500000, -(60 * 10 ** 6 + 1),
+    3600 * 10 ** 6 + 500000, -(60 * 10 ** 6 + 1), 999999, -500000,
 ]
 
 
@@ -353,6 +355,7 @@ def make_records(specs):
             continue
         got, want = obs(r.ts), expected_obs(s)
         if got != want:
+            # the wrong value is not written anywhere; it is still compared with the model's reading of the input
             fails.append(dict(kind="coercion", spec=s, got=list(got), want=list(want)))
             continue
         recs[s["i"]] = r
@@ -426,6 +429,34 @@ def judge(fmt, written, back):
     return None
 
 
+def classify(f):
+    """known-finding class of a failure, or None.  subsecond-offset-text: a value whose UTC offset is non-zero but
+    shorter than one second went through ISO text and came back with the same wall clock and offset 0."""
+    def sub(off):
+        return off is not None and 0 < abs(off) < 10 ** 6
+    if f["kind"] == "coercion" and f["spec"]["form"] == "text" and isinstance(f["got"], list):
+        if sub(f["want"][7]) and f["got"][:7] == f["want"][:7] and f["got"][7] == 0:
+            return "subsecond-offset-text"
+    if f["kind"] == "roundtrip" and f["format"] in ("records", "jsonl", "sqlite") and f["back"][0] != "EXC":
+        w, b = f["written"], f["back"]
+        if sub(w[7]) and list(b[:7]) == list(w[:7]) and b[7] == 0:
+            return "subsecond-offset-text"
+    return None
+
+
+def split_known(ctx, fails, kf):
+    """report listed known findings, return the other failures"""
+    rest = []
+    for f in fails:
+        cls = classify(f)
+        hit = [k for k in kf if cls and k.get("match", {}).get("class") == cls]
+        if hit:
+            ctx.known_finding(hit[0]["id"], hit[0]["what"])
+        else:
+            rest.append(f)
+    return rest
+
+
 def impl_checks(ctx, specs, count=True):
     """Run the implementation on every spec: coercion + four formats.  -> (recs, backs, failures)"""
     recs, fails = make_records(specs)
@@ -489,23 +520,27 @@ Definition wire_eqb (a b : wire) : bool :=
   | _, _ => false
   end.
 Definition D := mkdt.
+Definition Q := gen_fromiso_drops_subsecond_offset.
 Definition c_text (d : dtv) (text : string) : bool := String.eqb (iso_print d) text.
-Definition c_parse (d : dtv) (text : string) : bool := odtv_eqb (iso_parse text) (Some d).
+Definition c_parse (text : string) (parsed : option dtv) : bool := odtv_eqb (option_map coerce (iso_parse Q text)) parsed.
 Definition c_inst (d : dtv) (inst : Z) : bool := to_micros d =? inst.
 Definition c_wire (d : dtv) (k : tz_kind) (w : wire) : bool := wire_eqb (stream_encode gen_pack_rule k d) w.
-Definition c_unwire (d : dtv) (w : wire) : bool := odtv_eqb (stream_decode w) (Some d).
-Definition c_textfmt (d : dtv) : bool :=
-  odtv_eqb (obind (text_encode gen_json_datetime_form d) text_wire_decode) (Some d)
-  && odtv_eqb (obind (text_encode gen_sqlite_datetime_form d) text_wire_decode) (Some d).
+Definition c_unwire (w : wire) (back : option dtv) : bool := odtv_eqb (stream_decode Q w) back.
+Definition c_json (d : dtv) (back : option dtv) : bool :=
+  odtv_eqb (obind (text_encode gen_json_datetime_form d) (text_wire_decode Q)) back.
+Definition c_sqlite (d : dtv) (back : option dtv) : bool :=
+  odtv_eqb (obind (text_encode gen_sqlite_datetime_form d) (text_wire_decode Q)) back.
 Definition c_avro (d : dtv) (back : option dtv) : bool :=
   odtv_eqb (avro_decode (String.eqb gen_avro_logical_type "timestamp-micros") gen_avro_guard (avro_encode d)) back.
-(* a written value: model text = implementation text, parsing gives it back, same instant, same wire form,
-   the model's readers return it, and the model's Avro result is what the implementation returned *)
-Definition written (d : dtv) (text : string) (inst : Z) (k : tz_kind) (w : wire) (avro_back : option dtv) : bool :=
-  c_text d text && c_parse d text && c_inst d inst && c_wire d k w && c_unwire d w && c_textfmt d && c_avro d avro_back.
-Definition newobj (x : dtv) (o0 : option Z) (f : option dtv) : bool := odtv_eqb (dt_new gen_new_keeps_fold (InObj x o0)) f.
-Definition newtext (s : string) (f : option dtv) : bool := odtv_eqb (dt_new gen_new_keeps_fold (InText s)) f.
-Definition newepoch (n : Z) (f : option dtv) : bool := odtv_eqb (dt_new gen_new_keeps_fold (InEpochMicros n)) f.
+(* a written value: model text = implementation text; the model's reader on that text, the model's wire form and the
+   model's four format round trips give exactly what the implementation gave *)
+Definition written (d : dtv) (text : string) (parsed : option dtv) (inst : Z) (k : tz_kind) (w : wire)
+    (b_records b_json b_sqlite b_avro : option dtv) : bool :=
+  c_text d text && c_parse text parsed && c_inst d inst && c_wire d k w && c_unwire w b_records
+  && c_json d b_json && c_sqlite d b_sqlite && c_avro d b_avro.
+Definition newobj (x : dtv) (o0 : option Z) (f : option dtv) : bool := odtv_eqb (dt_new Q gen_new_keeps_fold (InObj x o0)) f.
+Definition newtext (s : string) (f : option dtv) : bool := odtv_eqb (dt_new Q gen_new_keeps_fold (InText s)) f.
+Definition newepoch (n : Z) (f : option dtv) : bool := odtv_eqb (dt_new Q gen_new_keeps_fold (InEpochMicros n)) f.
 Definition legacy (n : Z) (back : option dtv) : bool := odtv_eqb (avro_decode false gen_avro_guard (WMicros n)) back.
 """
 
@@ -545,35 +580,42 @@ def tz_kind_of(v):
     return "KEqUTC" if v.tzinfo == UTC else "KOther"
 
 
-def coq_cases(specs, recs, backs, legacy):
-    """-> (terms, metas)"""
+def coq_cases(specs, recs, backs, legacy, coerced):
+    """-> (terms, metas).  coerced: {spec index: obs of the field value} also for inputs whose value is a known finding"""
+    from flow.record import fieldtypes
     terms, metas = [], []
     seen = set()
     for s in specs:
         i = s["i"]
-        if i not in recs:
+        if i in recs:
+            v = recs[i].ts
+            o = obs(v)
+            wterm, wkind = wire_of(v)
+            kind = tz_kind_of(v)
+            key = (o, kind, wterm)
+            if key not in seen:
+                seen.add(key)
+                inst = (v - EPOCH) // US
+                text = v.isoformat()
+                try:
+                    parsed = obs(fieldtypes.datetime(text))
+                except Exception:  # noqa
+                    parsed = None
+                b = {f: backs[f].get(i) for f in FORMATS}
+                d = coq_dtv(o)
+                parts = dict(
+                    c_text="c_text %s %s" % (d, cstr(text)), c_parse="c_parse %s %s" % (cstr(text), coq_odtv(parsed)),
+                    c_inst="c_inst %s %s" % (d, cz(inst)), c_wire="c_wire %s %s %s" % (d, kind, wterm),
+                    c_unwire="c_unwire %s %s" % (wterm, coq_odtv(b["records"])), c_json="c_json %s %s" % (d, coq_odtv(b["jsonl"])),
+                    c_sqlite="c_sqlite %s %s" % (d, coq_odtv(b["sqlite"])), c_avro="c_avro %s %s" % (d, coq_odtv(b["avro"])))
+                terms.append("written %s %s %s %s %s %s %s %s %s %s" % (
+                    d, cstr(text), coq_odtv(parsed), cz(inst), kind, wterm, coq_odtv(b["records"]), coq_odtv(b["jsonl"]),
+                    coq_odtv(b["sqlite"]), coq_odtv(b["avro"])))
+                metas.append(dict(what="written", spec=s, value=list(o), text=text, instant=inst, wire=wkind,
+                                  back={f: list(x) if x else None for f, x in b.items()}, parts=parts))
+        if i not in coerced:
             continue
-        v = recs[i].ts
-        o = obs(v)
-        # the value as written
-        wterm, wkind = wire_of(v)
-        kind = tz_kind_of(v)
-        key = (o, kind, wterm)
-        if key not in seen:
-            seen.add(key)
-            inst = (v - EPOCH) // US
-            ab = backs["avro"].get(i)
-            terms.append("written %s %s %s %s %s %s" % (coq_dtv(o), cstr(v.isoformat()), cz(inst), kind, wterm, coq_odtv(ab)))
-            metas.append(dict(what="written", spec=s, value=list(o), text=v.isoformat(), instant=inst, wire=wkind,
-                              avro_back=list(ab) if ab else None, parts=dict(
-                                  c_text="c_text %s %s" % (coq_dtv(o), cstr(v.isoformat())),
-                                  c_parse="c_parse %s %s" % (coq_dtv(o), cstr(v.isoformat())),
-                                  c_inst="c_inst %s %s" % (coq_dtv(o), cz(inst)),
-                                  c_wire="c_wire %s %s %s" % (coq_dtv(o), kind, wterm),
-                                  c_unwire="c_unwire %s %s" % (coq_dtv(o), wterm),
-                                  c_textfmt="c_textfmt %s" % coq_dtv(o),
-                                  c_avro="c_avro %s %s" % (coq_dtv(o), coq_odtv(ab)))))
-        # the input form
+        o = coerced[i]
         f = s["form"]
         if f in ("object", "fieldobject"):
             x = build_object(s)
@@ -587,7 +629,7 @@ def coq_cases(specs, recs, backs, legacy):
         if t not in seen:
             seen.add(t)
             terms.append(t)
-            metas.append(dict(what="input", spec=s, value=list(o)))
+            metas.append(dict(what="input", spec=s, value=list(o), term=t))
     for n, b in legacy:
         terms.append("legacy %s %s" % (cz(n), coq_odtv(b)))
         metas.append(dict(what="legacy-avro", micros=n, back=list(b)))
@@ -608,18 +650,27 @@ def child_main(specfile, outdir):
     recs, fails = make_records(specs)
     idx = sorted(recs)
     res = dict(env={k: os.environ.get(k) for k in ("FLOW_RECORD_TZ", "TZ")},
-               display=repr(fieldtypes.DISPLAY_TZINFO), coercion_failures=[f["spec"]["i"] for f in fails])
+               display=repr(fieldtypes.DISPLAY_TZINFO), coercion_failures=[[f["spec"]["i"], classify(f)] for f in fails])
     res["field"] = {i: list(obs(recs[i].ts)) for i in idx}
     res["pack"] = {i: [list(obs(x)) if isinstance(x, _pydt.datetime) else x for x in recs[i]._pack()[1]] for i in idx}
     res["stream_bytes"] = {i: hashlib.sha256(RecordPacker().pack(recs[i])).hexdigest()[:16] for i in idx}
     jp = JsonRecordPacker()
     res["json_text"] = {i: jp.pack(recs[i]) for i in idx}
-    res["hash"] = {i: [hash(recs[i].ts), hash(recs[i])] for i in idx}
+    def safe(fn):
+        try:
+            return fn()
+        except Exception as e:  # noqa
+            return "EXC %s: %s" % (type(e).__name__, e)
+    res["hash"] = {i: [safe(lambda: hash(recs[i].ts)), safe(lambda: hash(recs[i]))] for i in idx}
     eq = {}
     for a, b in zip(idx, idx[1:] + idx[:1]):
         ra, rb = recs[a], recs[b]
-        eq[a] = [ra.ts == rb.ts, ra.ts != rb.ts, ra.ts < rb.ts, ra.ts <= rb.ts, ra == rb,
-                 ra.ts == fieldtypes.datetime(ra.ts.astimezone(UTC)), hash(ra.ts) == hash(fieldtypes.datetime(ra.ts.astimezone(UTC)))]
+        eq[a] = [safe(lambda: ra.ts == rb.ts), safe(lambda: ra.ts != rb.ts), safe(lambda: ra.ts < rb.ts),
+                 safe(lambda: ra.ts <= rb.ts), safe(lambda: ra == rb)]
+        if MIN_MICROS <= micros_of(obs(ra.ts)) <= MAX_MICROS:
+            # the same instant expressed in UTC is equal and hashes equally
+            u = fieldtypes.datetime(EPOCH + _pydt.timedelta(microseconds=micros_of(obs(ra.ts))))
+            eq[a] += [safe(lambda: ra.ts == u), safe(lambda: hash(ra.ts) == hash(u))]
     res["eq"] = eq
     files = {}
     rows = {}
@@ -646,15 +697,24 @@ def child_main(specfile, outdir):
     # printing: may differ between settings, but must show the same instant
     shown = {}
     bad_print = []
+    unprintable = []
     for i in idx:
-        t = str(recs[i].ts)
+        try:
+            t = str(recs[i].ts)
+        except OverflowError as e:
+            # the value expressed in the display zone leaves years 1..9999: printing is outside this property
+            shown[i] = "OverflowError: %s" % e
+            unprintable.append(i)
+            continue
         shown[i] = t
         try:
             if micros_of(obs(fieldtypes.datetime(t))) != micros_of(obs(recs[i].ts)):
-                bad_print.append(i)
+                if classify(dict(kind="coercion", spec=dict(form="text"), got=list(obs(fieldtypes.datetime(t))),
+                                 want=list(obs(recs[i].ts)))) is None:
+                    bad_print.append(i)
         except Exception:  # noqa
-            if 1 < recs[i].ts.year < 9999:      # the display zone can push the printed year out of range at the ends
-                bad_print.append(i)
+            bad_print.append(i)
+    res["unprintable"] = unprintable
     res["str"] = shown
     res["print_moves_instant"] = bad_print
     json.dump(res, sys.stdout, default=repr)
@@ -672,7 +732,7 @@ def display_specs(specs):
     return picked[:140]
 
 
-def display_checks(ctx, specs):
+def display_checks(ctx, specs, known_classes=()):
     """-> list of failures (dict) ; [] when all settings agree"""
     sub = display_specs(specs)
     specfile = ctx.work / "display_specs.json"
@@ -707,8 +767,9 @@ def display_checks(ctx, specs):
             i = r["print_moves_instant"][0]
             fails.append(dict(kind="display", why="str() under %r shows another instant: %r" % (setting, r["str"][str(i)]),
                               spec=byi[str(i)], settings=[setting]))
-        if r["coercion_failures"]:
-            i = r["coercion_failures"][0]
+        unknown = [i for i, cls in r["coercion_failures"] if cls not in known_classes]
+        if unknown:
+            i = unknown[0]
             fails.append(dict(kind="display", why="under %r the field value is not (wall clock, offset) of the input" % (setting,),
                               spec=byi[str(i)], settings=[setting]))
     for setting, r in results[1:]:
@@ -740,6 +801,11 @@ def display_checks(ctx, specs):
                               spec=byi.get(str(where[1])) if where and where[1] is not None else None,
                               settings=[base_setting, setting], observed=key))
             break
+    unp = sorted({i for _, r in results for i in r.get("unprintable", [])})
+    if unp:
+        ctx.notes.append("observation outside the property: str() of %d valid inputs raises OverflowError under some display setting "
+                         "(the value expressed in the display zone leaves years 1..9999), e.g. %s" % (
+                             len(unp), describe(dict(kind="x", why="str() raises", spec=byi[str(unp[0])]))))
     strs = {json.dumps(r["str"], sort_keys=True) for _, r in results}
     ctx.notes.append("display settings: %d subprocesses x %d inputs; stored bytes/rows, field values, _pack, ==, <, hash identical; "
                      "%d distinct str() renderings" % (len(results), len(sub), len(strs)))
@@ -775,9 +841,11 @@ def search(ctx, reason):
     """The proof/translator broke: look for a concrete failing timestamp on the implementation."""
     try:
         specs = gen_specs(ctx.seed, ctx.tier)
+        kf = core.known_for("C13")
         recs, backs, fails = impl_checks(ctx, specs)
+        fails = [f for f in fails if not any(k.get("match", {}).get("class") == classify(f) for k in kf if classify(f))]
         if not fails:
-            fails, _ = display_checks(ctx, specs)
+            fails, _ = display_checks(ctx, specs, [k.get("match", {}).get("class") for k in kf])
         if not fails:
             leg = legacy_avro_cases(ctx, random.Random(ctx.seed))
             for n, b in leg:
@@ -818,12 +886,18 @@ def run(ctx):
     ]
     if not ok:
         return
+    kf = core.known_for("C13")
+    known_classes = [k.get("match", {}).get("class") for k in kf]
     specs = gen_specs(ctx.seed, ctx.tier)
     recs, backs, fails = impl_checks(ctx, specs)
-    if report(ctx, fails):
+    coerced = {i: obs(r.ts) for i, r in recs.items()}
+    for f in fails:
+        if f["kind"] == "coercion" and isinstance(f["got"], list):
+            coerced[f["spec"]["i"]] = tuple(f["got"])
+    if report(ctx, split_known(ctx, fails, kf)):
         return
     legacy = legacy_avro_cases(ctx, random.Random(ctx.seed))
-    terms, metas = coq_cases(specs, recs, backs, legacy)
+    terms, metas = coq_cases(specs, recs, backs, legacy, coerced)
     failing, err = core.eval_bool_cases(ctx, HEADER, terms, shard_size=150, name="c13")
     if err:
         ctx.violation("correspondence shards did not evaluate: " + err[:300], dict(kind="coq-eval", log=err), no_input=True)
@@ -845,7 +919,7 @@ def run(ctx):
                  failing=[json.dumps({k: v for k, v in metas[i].items() if k != "parts"}, default=repr)[:300] for i in failing[:10]]),
             no_input=True)
         return
-    dfails, nsub = display_checks(ctx, specs)
+    dfails, nsub = display_checks(ctx, specs, known_classes)
     for s in display_specs(specs):
         for k in range(len(SETTINGS)):
             ctx.count_case(spec_key(s) + ("display", k), nontrivial=True)
